@@ -109,6 +109,9 @@ DiagonalSolver<T>::DiagonalSolver(DiagonalSolver&& other) noexcept
 template <typename T>
 DiagonalSolver<T>& DiagonalSolver<T>::operator=(DiagonalSolver&& other) noexcept
 {
+    if (this == &other) {
+        return *this; // Handle self-assignment
+    }
     matrix_dimension_       = other.matrix_dimension_;
     diagonal_values_        = std::move(other.diagonal_values_);
     other.matrix_dimension_ = 0;
